@@ -5,6 +5,7 @@
 //! With no hooks armed it is a pass-through.
 
 use crate::system::{System, SystemError, CommandScript, CommandLineOutput, fake::FakeSystem, fake::FakeOpenFile};
+use std::io::Read;
 use std::sync::{Arc, Mutex};
 use std::collections::VecDeque;
 use std::time::SystemTime;
@@ -27,7 +28,52 @@ pub struct Hooks
     pub freeze_after : Option<u32>,     // mutations allowed before the process "dies"
     pub mutations : u32,
     pub dead : bool,
+    pub torn_bytes : usize,             // how much of the write that is cut short gets through
     pub calls : Vec<String>,
+}
+
+/*  A file handle whose writes count as mutations and can be cut short by the kill. */
+#[derive(Debug)]
+pub struct HookFile
+{
+    inner : FakeOpenFile,
+    hooks : Arc<Mutex<Hooks>>,
+}
+
+impl std::fmt::Debug for Hooks
+{
+    fn fmt(&self, f : &mut std::fmt::Formatter) -> std::fmt::Result { write!(f, "Hooks") }
+}
+
+impl std::io::Read for HookFile
+{
+    fn read(&mut self, buf : &mut [u8]) -> std::io::Result<usize> { self.inner.read(buf) }
+}
+
+impl std::io::Write for HookFile
+{
+    fn write(&mut self, buf : &[u8]) -> std::io::Result<usize>
+    {
+        let mut h = self.hooks.lock().unwrap();
+        if h.dead { return Err(std::io::Error::from(std::io::ErrorKind::BrokenPipe)); }
+        if let Some(n) = h.freeze_after
+        {
+            if h.mutations >= n
+            {
+                /*  killed inside this write: a strict prefix reaches the disk */
+                h.dead = true;
+                let t = std::cmp::min(h.torn_bytes, buf.len().saturating_sub(1));
+                drop(h);
+                if t > 0 { let _ = self.inner.write(&buf[..t]); }
+                return Err(std::io::Error::from(std::io::ErrorKind::BrokenPipe));
+            }
+        }
+        h.mutations += 1;
+        h.calls.push(format!("write {} bytes", buf.len()));
+        drop(h);
+        self.inner.write(buf)
+    }
+    fn flush(&mut self) -> std::io::Result<()> { self.inner.flush() }
 }
 
 #[derive(Clone)]
@@ -42,7 +88,7 @@ impl HookSystem
     pub fn new(inner : FakeSystem, cache_prefix : &str) -> HookSystem
     {
         HookSystem { inner, hooks : Arc::new(Mutex::new(Hooks { cache_prefix : cache_prefix.to_string(), peer : VecDeque::new(), budget : 0,
-            peer_log : vec![], freeze_after : None, mutations : 0, dead : false, calls : vec![] })) }
+            peer_log : vec![], freeze_after : None, mutations : 0, dead : false, torn_bytes : 0, calls : vec![] })) }
     }
 
     fn interfere(&self, path : &str)
@@ -93,13 +139,18 @@ impl HookSystem
 
 impl System for HookSystem
 {
-    type File = FakeOpenFile;
+    type File = HookFile;
 
-    fn open(&self, path : &str) -> Result<Self::File, SystemError> { self.interfere(path); self.inner.open(path) }
+    fn open(&self, path : &str) -> Result<Self::File, SystemError>
+    {
+        self.interfere(path);
+        self.inner.open(path).map(|f| HookFile { inner : f, hooks : self.hooks.clone() })
+    }
     fn create_file(&mut self, path : &str) -> Result<Self::File, SystemError>
     {
         if !self.admit(format!("create_file {}", path)) { return Err(SystemError::Weird); }
-        self.inner.create_file(path)
+        let hooks = self.hooks.clone();
+        self.inner.create_file(path).map(|f| HookFile { inner : f, hooks : hooks })
     }
     fn create_dir(&mut self, path : &str) -> Result<(), SystemError>
     {
